@@ -1,4 +1,5 @@
 import RosuModel.Model.GradualWire
+import RosuModel.Model.GradualView
 import RosuModel.Model.BuilderWire
 import RosuModel.Model.Convert
 import RosuModel.Model.DecodeWire
@@ -25,6 +26,7 @@ def handle (line : String) : String :=
   match line.trimAscii.toString.splitOn " " with
   | ["GRAD", mode, objs, sig, ops] => Gradual.handleGrad mode objs sig ops
   | ["ONE", mode, objs, take] => Gradual.handleOne mode objs take
+  | ["GRADV", mode, n, take] => GradualView.handleGradV mode n take
   | ["BLD", kind, mode, calls] => Builder.handleBld kind mode calls
   | ["CONV", mode, isConv, target] => Convert.handleConv mode isConv target
   | ["TANDEM", keys, payload] => Decode.handleTandem keys payload
